@@ -39,6 +39,18 @@ Unset == [set |-> FALSE, v |-> ""]
 Val(s) == [set |-> TRUE, v |-> s]
 
 ---------------------------------------------------------------------------
+(* Notation for writing words: every operator yields a sequence of units,  *)
+(* so words are built with \o.                                             *)
+WLit(s) == [i \in 1..Len(s) |-> [t |-> "lit", c |-> SubSeq(s, i, i)]]
+WBs(c) == <<[t |-> "bs", c |-> c]>>
+WSq(s) == <<[t |-> "sq", s |-> s]>>
+WDq(us) == <<[t |-> "dq", u |-> us]>>
+WPar(p) == <<[t |-> "par", p |-> p, m |-> "none"]>>
+WLen(p) == <<[t |-> "par", p |-> p, m |-> "len"]>>
+WSw(p, colon, act, w) == <<[t |-> "par", p |-> p, m |-> "sw", colon |-> colon, act |-> act, w |-> w]>>
+WTrim(p, side, long, w) == <<[t |-> "par", p |-> p, m |-> "trim", side |-> side, long |-> long, w |-> w]>>
+
+---------------------------------------------------------------------------
 (* Phrases                                                                 *)
 ZeroFields == <<>>
 OneEmptyField == << <<>> >>
